@@ -297,6 +297,40 @@ func stripTypeArgs(k string) string {
 
 // storeName: a store into a field of an existing object (not a local being built) is an effect too.
 func storeName(in ssa.Instruction) string {
+	// writes into a map that was not made in this function are effects too
+	localMap := func(m ssa.Value) bool {
+		for {
+			switch x := m.(type) {
+			case *ssa.MakeMap:
+				return true
+			case *ssa.ChangeType:
+				m = x.X
+				continue
+			case *ssa.Phi:
+				for _, e := range x.Edges {
+					if _, ok := e.(*ssa.MakeMap); !ok {
+						return false
+					}
+				}
+				return true
+			}
+			return false
+		}
+	}
+	if mu, ok := in.(*ssa.MapUpdate); ok {
+		if localMap(mu.Map) {
+			return ""
+		}
+		return "mapstore " + shortType(mu.Map.Type())
+	}
+	if call, ok := in.(*ssa.Call); ok {
+		if bi, ok := call.Call.Value.(*ssa.Builtin); ok && bi.Name() == "delete" && len(call.Call.Args) == 2 {
+			if localMap(call.Call.Args[0]) {
+				return ""
+			}
+			return "mapdelete " + shortType(call.Call.Args[0].Type())
+		}
+	}
 	st, ok := in.(*ssa.Store)
 	if !ok {
 		return ""
@@ -348,7 +382,14 @@ func directCalleeCounts(c *Ctx, fn *ssa.Function, out map[string]bool, counts ma
 					if out != nil {
 						out[n] = true
 					}
-					bump(n, describeVal(in.(*ssa.Store).Addr.(*ssa.FieldAddr).X, 0))
+					switch x := in.(type) {
+					case *ssa.Store:
+						bump(n, describeVal(x.Addr.(*ssa.FieldAddr).X, 0))
+					case *ssa.MapUpdate:
+						bump(n, describeVal(x.Map, 0))
+					case *ssa.Call:
+						bump(n, describeVal(x.Call.Args[0], 0))
+					}
 					continue
 				}
 				ci, ok := in.(ssa.CallInstruction)
